@@ -103,6 +103,26 @@ func runC20(k int, rng *Rng) CaseResult {
 			w.fail("snapshot-len-changed", "Len", "-", fmt.Sprintf("%s: Len was %d, is %d after later writes", desc, len0, n))
 			break
 		}
+		// a search derived from the outstanding one (after the writes, before it is collected) is a
+		// new search: the outstanding one keeps its matches
+		if rng.P(0.5) {
+			q2 := qs[rng.Intn(len(qs))]
+			useOr := rng.P(0.7)
+			w.logf("deriving a search from the outstanding one (or=%v) with %s", useOr, chainString([]Query{q2}))
+			if w.call("Search.Or(derive)", func() {
+				if useOr {
+					s.Or(q2.Path, q2.Op, q2.Probe).Len()
+				} else {
+					s.And(q2.Path, q2.Op, q2.Probe).Len()
+				}
+			}) {
+				break
+			}
+			if n := s.Len(); n != len0 {
+				w.fail("snapshot-len-changed", "Or(derive)", "-", fmt.Sprintf("%s: Len was %d, is %d after a search was derived from it", desc, len0, n))
+				break
+			}
+		}
 		mode := rng.Intn(5)
 		api := []string{"Collect", "Assign", "One", "Delete", "Reverse.Limit.Collect"}[mode]
 		var got []*Rec
